@@ -88,7 +88,7 @@ def check(rep, model, tier):
     rep.rule('NO-ABS-LEVEL', 'no V-valued term is added to, compared with or tested against a non-zero literal or an absolute tolerance (np.isclose / np.allclose); zero is allowed (sign tests)')
     rep.rule('UNIT-CONSISTENT', 'every sum / comparison / alternative / array in the extremum, midpoint, feature and labelling code combines terms of one unit, and every argument of the '
                                 'neurodsp callees has the unit its parameter expects (fs in samples/s, f_range in 1/s, n_cycles dimensionless, n_seconds in s)')
-    rep.rule('OPTIONS-STABLE', 'the pipeline never writes through the filter-option dictionaries (find_extrema_kwargs, filter_kwargs) it is given, so an absolute filter length cannot leak from one (fs, f_range) call into the next (shared with C15)')
+    rep.rule('OPTIONS-STABLE', 'the pipeline never writes through the option dictionaries (find_extrema_kwargs, filter_kwargs, and burst_kwargs, which carries fs and f_range for the amplitude method) it is given, so an absolute filter length cannot leak from one (fs, f_range) call into the next (shared with C15)')
     rep.assumptions += ['unit seeds come from the docstrings (sig in V; fs in samples/s; f_range in 1/s; sample columns, boundary in samples; n_seconds, start, stop in s)',
                         'linearity of the FIR filter and scale behaviour inside neurodsp are modelled (unit signatures), not analysed; exact floating-point commutation is not decided']
     f = model.find('compute_shape_features')
@@ -176,7 +176,7 @@ def check(rep, model, tier):
     summ, det, rounds, ro = common.effects(model)
     for name in ('compute_features', 'compute_shape_features', 'compute_cyclepoints', 'find_extrema', 'compute_burst_features', 'compute_burst_fraction'):
         fn = model.find(name)
-        hits = sorted((ln, c, via) for (w, ln, c, via) in det[fn.qual].mut if w[0] == 'P' and w[1] in ('find_extrema_kwargs', 'filter_kwargs'))
+        hits = sorted((ln, c, via) for (w, ln, c, via) in det[fn.qual].mut if w[0] == 'P' and w[1] in ('find_extrema_kwargs', 'filter_kwargs', 'burst_kwargs', 'threshold_kwargs'))
         if hits:
             rep.violation('OPTIONS-STABLE', name, f'{fn.path}:{hits[0][0]} {name}', expected='no write through an option dictionary',
                           found='; '.join(f'{c}' + (f' [via {v}]' if v else '') for _, c, v in hits[:3]) + ': a value derived from this call\'s fs / f_range survives into the next call')
